@@ -13,6 +13,9 @@ import os
 import vlib
 import fsharness as H
 from props import _stateful as S
+from props import _basewalk as BW
+
+EXTRA_PROOF_MODULES = ("FsProofs.BaseWalkLaws",)
 
 BULK = ["move", "copy", "movedir", "copydir", "removetree"]
 
@@ -508,6 +511,10 @@ def run(rep, tier, seed, deep=False):
         rep.programs = len(set(s.hist_id for s in steps))
         for s, m in S.with_model(drv, steps):
             judge(rep, s, m)
+        # the base-class algorithms AS CODED (walker, copy_structure, Copier, move_dir) against their operational
+        # model FsModel.BaseWalk over the Mem / Os primitives: class and (partial) tree, the reference's loose cases
+        # included; FsProofs/BaseWalkLaws.lean proves that this model computes the reference's tree-level result
+        BW.run(rep, drv, steps, quick)
         kinds = ["mem", "os", "sub-mem", "sub-os"]
         for i in range(n_cross):
             ka, kb = rng.choice(kinds), rng.choice(kinds)
@@ -531,6 +538,8 @@ def run(rep, tier, seed, deep=False):
 
 def replay(rep, case):
     c = case["case"]
+    if (case.get("signature") or "").startswith("C05/basewalk/"):
+        return BW.replay(rep, c)
     if "backend" not in c:
         print("cross / symlink case: rerun the check with the same seed")
         symlink_canary(rep)
